@@ -66,6 +66,7 @@ Step ==
             /\ err' = IF T.n > 0 /\ (~NoStructChange(e) \/ e.pd # T.pdepth) THEN "final.struct-change" ELSE "ok"
             /\ T' = T /\ ph' = ph
        [] e.k = "script" -> err' = "replay.script" /\ T' = T /\ ph' = ph
+       [] e.k = "diverged" -> err' = "mk.replay-mismatch" /\ T' = T /\ ph' = ph
        [] e.k = "ctor" -> err' = "ctor.raises" /\ T' = T /\ ph' = ph
        [] e.k = "end" ->
             /\ err' = IF e.dom_same # 1 THEN "end.domain-mutated"
